@@ -7,6 +7,7 @@ import (
 	osexec "os/exec"
 	"regexp"
 	"strings"
+	"sync"
 	"testing"
 	"time"
 
@@ -105,6 +106,7 @@ func TestRaceStage(t *testing.T) {
 		{"scenarios", "TestRelayScenarios", nil, []string{"-rapid.checks=" + checks, "-rapid.seed=" + seed, "-rapid.shrinktime=1s"}},
 		{"stress", "TestTwoNamesStress", []string{"VERIF_C11_STRESS_MS=1500", "VERIF_C11_STRESS_SESSIONS=8"}, nil},
 		{"fixed", "TestFixedRegressions", nil, nil},
+		{"stats", "(TestFixedStats|TestStatsScenarios)", nil, []string{"-rapid.checks=" + statsChecks(checks), "-rapid.seed=" + seed, "-rapid.shrinktime=1s"}},
 	}
 	// judge returns whether the known packer finding was hit; any unlisted report fails the test
 	judge := func(name, out string, err error, excluded bool) (packerHit bool) {
@@ -151,14 +153,32 @@ func TestRaceStage(t *testing.T) {
 		return packerHit
 	}
 	sel := os.Getenv("VERIF_C11_RACE_JOBS") // comma separated job names; empty = all
-	for _, j := range jobs {
+	// the children are separate processes (process-wide fd / goroutine accounting stays valid): run them side by side
+	type result struct {
+		out string
+		err error
+		dur time.Duration
+	}
+	results := make([]result, len(jobs))
+	var wg sync.WaitGroup
+	for i, j := range jobs {
 		if sel != "" && !strings.Contains(","+sel+",", ","+j.name+",") {
 			continue
 		}
-		t0 := time.Now()
-		out, err := runChild(t, j.test, j.env, j.args...)
-		t.Logf("child %s: err=%v reports=%d in %v", j.name, err, len(splitRaces(out)), time.Since(t0).Round(time.Millisecond))
-		if judge(j.name, out, err, false) && j.name != "stress" {
+		wg.Go(func() {
+			t0 := time.Now()
+			out, err := runChild(t, j.test, j.env, j.args...)
+			results[i] = result{out, err, time.Since(t0)}
+		})
+	}
+	wg.Wait()
+	for i, j := range jobs {
+		if sel != "" && !strings.Contains(","+sel+",", ","+j.name+",") {
+			continue
+		}
+		out, err := results[i].out, results[i].err
+		t.Logf("child %s: err=%v reports=%d in %v", j.name, err, len(splitRaces(out)), results[i].dur.Round(time.Millisecond))
+		if judge(j.name, out, err, false) && j.name == "scenarios" {
 			// continue past the finding with the triggering class excluded by construction
 			out2, err2 := runChild(t, j.test, append(j.env, "VERIF_C11_EXCLUDE_SHARED_PACKER=1"), j.args...)
 			t.Logf("child %s (known class excluded): err=%v reports=%d", j.name, err2, len(splitRaces(out2)))
@@ -166,6 +186,12 @@ func TestRaceStage(t *testing.T) {
 			recRace.Excluded(1)
 		}
 	}
+}
+
+func statsChecks(checks string) string {
+	n := 0
+	fmt.Sscan(checks, &n)
+	return fmt.Sprint(max(5, n/4))
 }
 
 // sigLines returns the lines of the child's output that carry a violation signature or a panic.
